@@ -129,6 +129,9 @@ impl Scenario for C18Gc {
 						let fam = *rng.pick(&[
 							"cyclic-garbage",
 							"cyclic-garbage",
+							"standalone-super",
+							"standalone-super",
+							"import-assert",
 							"mutual-recursion",
 							"import-cycle",
 							"self-dependence",
